@@ -10,11 +10,11 @@ use splgen::src::{fnv, Src};
 use splgen::text;
 
 /// lexemes that are lexically valid SPL
-const VALID_LEXEMES: [&str; 52] = [
+const VALID_LEXEMES: [&str; 60] = [
     "(", ")", "[", "]", "{", "}", "=", "#", "<", "<=", ">", ">=", ":=", ":", ",", ";", "+", "-", "*", "/", "if",
     "else", "while", "array", "of", "proc", "ref", "type", "var", "int", "main", "x", "iff", "typ", "elsee", "_",
     "_if", "x1", "of_", "0", "7", "42", "007", "2147483647", "0x1F", "0xff", "0x0", "'a'", "'\\n'", "' '", "'/'",
-    "// c\n",
+    "// c\n", "var1", "if2", "of3", "proc0", "while9", "'\"'", "'\\'", "0x7fffffff",
 ];
 const VALID_SEPS: [&str; 9] = ["", " ", " ", "\n", "\t", "\r\n", "  ", "\n\n", " \n "];
 const EXH_ALPHABET: [&str; 16] = ["a", "i", "f", "0", "x", "1", "<", "=", ":", "/", "'", " ", "\n", "é", "😀", "\\n"];
